@@ -585,7 +585,12 @@ func (e *FormatEncoder) Encode(v interface{}) (int64, error) {
 		if err != nil {
 			return n, err
 		}
-		n1, err := io.Copy(e.w, t.Data)
+		// The element has to hold exactly as many bytes as its size field says,
+		// also when the file changed since its size was taken
+		n1, err := io.CopyN(e.w, t.Data, int64(t.Size)-16)
+		if err == io.EOF {
+			err = fmt.Errorf("payload is shorter than its size of %d bytes", t.Size-16)
+		}
 		return n + n1, err
 
 	case FormatFCaps:
